@@ -339,7 +339,11 @@ class BaseTemplate:
         return cooked
 
     def digest(self, body: str, names: Collection[str]) -> str:
-        class_name = type(self).__name__.encode('utf-8')
+        # The class is identified by its qualified name: classes of
+        # different modules may share a bare name.
+        cls = type(self)
+        class_name = "{}.{}".format(
+            cls.__module__, cls.__qualname__).encode('utf-8')
         sha = get_pkg_digest()
         sha.update(body.encode('utf-8', 'ignore'))
         sha.update(class_name)
